@@ -32,8 +32,28 @@ def _is_const(e):
     return False
 
 
+def _unroll_literal_loops(stmts):
+    """`for a, b in (("in", "out"), ("out", "in")): <body>` over a literal sequence of constants is the body repeated
+    with the constants substituted (only bodies made of if / return / raise, no break / continue / else)."""
+    out = []
+    for s in stmts:
+        if isinstance(s, ast.For) and not s.orelse and isinstance(s.iter, (ast.Tuple, ast.List)) and s.iter.elts and all(_is_const(e) for e in s.iter.elts) and not any(isinstance(x, (ast.Break, ast.Continue, ast.For, ast.While)) for b in s.body for x in ast.walk(b)):
+            for e in s.iter.elts:
+                if isinstance(s.target, ast.Name):
+                    mapping = {s.target.id: e}
+                elif isinstance(s.target, ast.Tuple) and isinstance(e, ast.Tuple) and len(e.elts) == len(s.target.elts) and all(isinstance(t, ast.Name) for t in s.target.elts):
+                    mapping = {t.id: v for t, v in zip(s.target.elts, e.elts)}
+                else:
+                    return stmts
+                out.extend(_Subst(mapping).visit(copy.deepcopy(b)) for b in s.body)
+        else:
+            out.append(s)
+    return out
+
+
 def _selector_body(tgt: FunctionInfo):
     body = [s for s in tgt.node.body if not (isinstance(s, ast.Expr) and isinstance(s.value, ast.Constant))]
+    body = _unroll_literal_loops(body)
     params = set(tgt.all_params)
 
     def ok(stmts):
